@@ -21,8 +21,8 @@ from vlib import (HarnessError, build, finish, log, mc_coverage, ncpu, parallel,
 CMPS = ["default"] + ["k%ds%d" % (k, s) for k in range(3) for s in range(3)]
 
 # per comparer: number of trace files, random universes per file, sampled triples (enumerated universe)
-TIERS = {"quick": dict(parts=1, extras=60, triples=4000, cfg="IKey_quick.cfg"),
-         "thorough": dict(parts=12, extras=400, triples=20000, cfg="IKey_thorough.cfg")}
+TIERS = {"quick": dict(parts=1, extras=100, triples=4000, cfg="IKey_quick.cfg"),
+         "thorough": dict(parts=12, extras=200, triples=20000, cfg="IKey_thorough.cfg")}
 
 ASSUME = ["TLC and the CommunityModules Json reader are trusted",
           "the harness's reference user orders (vt.RefCmp.Compare; bytes.Compare for the built-in comparer) and the positions "
@@ -113,7 +113,16 @@ def main(ctx):
     def validate(s):
         return s, tlc_trace(ctx, "IKeyTrace.tla", "IKeyTrace.cfg", s["path"], timeout=1500)
 
-    results = parallel(validate, sums, workers=min(ncpu(), 16))
+    # a trace file is some tens of MB of TLC values; bound every validator's heap so that they fit side by side
+    jto = os.environ.get("JAVA_TOOL_OPTIONS")
+    os.environ["JAVA_TOOL_OPTIONS"] = ((jto or "") + " -Xmx3g").strip()
+    try:
+        results = parallel(validate, sums, workers=min(ncpu(), 12))
+    finally:
+        if jto is None:
+            del os.environ["JAVA_TOOL_OPTIONS"]
+        else:
+            os.environ["JAVA_TOOL_OPTIONS"] = jto
     stats, drift = {}, 0
     for s, r in results:
         for k, v in s["stats"].items():
